@@ -499,3 +499,33 @@ Definition body_harmless (t : string) : bool :=
     negb (startswith ll "requires-dist:")
     && (has_field "name" fs || negb (startswith ll "name:"))
     && (has_field "version" fs || negb (startswith ll "version:"))) (body_lines t).
+
+(* ------------------------------------------------------------------------------------ *)
+(* One process, many reads: files are written/replaced and wheels are read, in any order.
+   The code keeps no memory between calls of extract_metadata on a wheel (FAILED_BUILDS in
+   metadata/source.py only turns one MetadataError into another), so the process model has the
+   file system as its only state and every read answers from the file that is there NOW. *)
+Inductive op := WriteFile (path : string) (a : archive) | ReadWheel (path : string).
+Inductive read_res := NoSuchFile | Answer (r : res dist).
+Definition files := list (string * archive).
+Definition lookup_file (p : string) (st : files) : option archive :=
+  match List.find (fun e => String.eqb (fst e) p) st with Some e => Some (snd e) | None => None end.
+Definition answer_now (vok rok : string -> bool) (p : string) (st : files) : read_res :=
+  match lookup_file p st with
+  | Some a => Answer (extract_whl vok rok p a)
+  | None => NoSuchFile     (* zipfile.ZipFile raises FileNotFoundError, which is not caught *)
+  end.
+Fixpoint fs_after (st : files) (ops : list op) : files :=
+  match ops with
+  | [] => st
+  | WriteFile p a :: r => fs_after ((p, a) :: st) r
+  | ReadWheel _ :: r => fs_after st r
+  end.
+Fixpoint run_ops (vok rok : string -> bool) (st : files) (ops : list op) : list read_res :=
+  match ops with
+  | [] => []
+  | WriteFile p a :: r => run_ops vok rok ((p, a) :: st) r
+  | ReadWheel p :: r => answer_now vok rok p st :: run_ops vok rok st r
+  end.
+Definition writes_to (p : string) (o : op) : bool :=
+  match o with WriteFile q _ => String.eqb q p | ReadWheel _ => false end.
